@@ -5,6 +5,7 @@ import FeedVerif.Model.BaseDriver
 import FeedVerif.Model.CssDriver
 import FeedVerif.Model.DateDriver
 import FeedVerif.Model.EncDriver
+import FeedVerif.Model.DoctypeDriver
 /-!
 Model driver: one operation per input line `<model> <op> <fields…>`, one canonical output line per
 operation.  Run with `lake env lean --run Main.lean`.
@@ -23,6 +24,7 @@ def stepLine (st : DState) (line : String) : DState × String :=
   | "css" :: rest => (st, Css.driverStep rest)
   | "date" :: rest => (st, Date.driverStep rest)
   | "enc" :: rest => (st, Enc.driverStep rest)
+  | "doctype" :: rest => (st, Doctype.driverStep rest)
   | "base" :: rest => let (s, o) := Base.driverStep st.base rest; ({ st with base := s }, o)
   | _ => (st, "bad-model")
 
